@@ -15,7 +15,7 @@ RULE = ("each run: one input of the C01-C06 families (well-formed, size/value/le
         "compared; distinct = distinct (type, cc, flag, bytes)")
 REAL = common.REAL_DECODER
 ASSUMPTIONS = ["error details are snapshotted when the warning event is emitted (constraint objects are mutable)"]
-TIERS = {"quick": {"runs": 50000, "budget": 150}, "thorough": {"runs": 800000, "budget": 780}}
+TIERS = {"quick": {"runs": 70000, "budget": 150}, "thorough": {"runs": 800000, "budget": 780}}
 
 
 def make_case(i, rng, tier):
